@@ -11,9 +11,10 @@ package tty
 //   framebuffer : the <<ch, fg, bg>> whose font glyph, rendered with the console's palette in the
 //                 frame buffer's pixel format, equals the cell's pixels exactly (canonical triple
 //                 of that picture; -1 when no character and colours produce these pixels).
-// Bytes outside the cell grid (guard bytes around the frame buffer, logo rows) are compared with
-// their value at set-up time; row padding and partial cells right of / below the grid are not
-// looked at (Scroll copies whole rows: C19's business).
+// Bytes outside the cell grid (guard bytes around the frame buffer, logo rows, the padding bytes
+// after every pixel row) are compared with their value at set-up time; partial cells right of /
+// below the grid are not looked at (Scroll moves whole visible rows).  A 32 bpp pixel is read
+// with all four bytes, masked by the union of the colour component masks.
 
 import (
 	"image/color"
@@ -196,13 +197,14 @@ type c18Fb struct {
 	*console.VesaFbConsole
 	w, h                 uint32 // cells
 	pw, ph, pitch, bpp   uint32
-	bytesPP, offY        uint32
+	bytesPP, offY, mask  uint32
 	ci                   *multiboot.FramebufferRGBColorInfo
 	f                    *font.Font
 	gl                   *c18Glyphs
 	fb                   []byte
 	before, after        []byte
 	snapB, snapA, snapLg []byte
+	snapPad              []byte
 	idx                  map[uint32]int
 	desc                 string
 }
@@ -211,19 +213,28 @@ var c18Fonts = []string{"terminus8x16", "terminus10x18", "terminus14x28"}
 
 func newC18Fb(t *testing.T, w, h uint32, rng *rand.Rand) c17Screen {
 	c := &c18Fb{w: w, h: h}
-	c.bpp = []uint32{8, 15, 16, 24, 32}[rng.Intn(5)]
+	c.bpp = []uint32{8, 15, 16, 24, 32, 32}[rng.Intn(6)]
 	c.bytesPP = (c.bpp + 1) >> 3
+	rgb := func(r, g, b uint8) *multiboot.FramebufferRGBColorInfo {
+		return &multiboot.FramebufferRGBColorInfo{RedPosition: r, RedMaskSize: 8, GreenPosition: g, GreenMaskSize: 8, BluePosition: b, BlueMaskSize: 8}
+	}
 	switch c.bpp {
 	case 15:
 		c.ci = &multiboot.FramebufferRGBColorInfo{RedPosition: 10, RedMaskSize: 5, GreenPosition: 5, GreenMaskSize: 5, BluePosition: 0, BlueMaskSize: 5}
 	case 16:
 		c.ci = &multiboot.FramebufferRGBColorInfo{RedPosition: 11, RedMaskSize: 5, GreenPosition: 5, GreenMaskSize: 6, BluePosition: 0, BlueMaskSize: 5}
+	case 32:
+		// XRGB, XBGR and the layouts with a colour component in the fourth byte of a pixel: RGBX, BGRX
+		c.ci = [](*multiboot.FramebufferRGBColorInfo){rgb(16, 8, 0), rgb(0, 8, 16), rgb(24, 16, 8), rgb(8, 16, 24)}[rng.Intn(4)]
 	default:
-		if rng.Intn(2) == 0 {
-			c.ci = &multiboot.FramebufferRGBColorInfo{RedPosition: 16, RedMaskSize: 8, GreenPosition: 8, GreenMaskSize: 8, BluePosition: 0, BlueMaskSize: 8}
-		} else {
-			c.ci = &multiboot.FramebufferRGBColorInfo{RedPosition: 0, RedMaskSize: 8, GreenPosition: 8, GreenMaskSize: 8, BluePosition: 16, BlueMaskSize: 8}
-		}
+		c.ci = [](*multiboot.FramebufferRGBColorInfo){rgb(16, 8, 0), rgb(0, 8, 16)}[rng.Intn(2)]
+	}
+	// the bits of a pixel that are displayed: the union of the component masks (the other bits of a
+	// 32 bpp pixel are not looked at)
+	c.mask = (uint32(1)<<c.ci.RedMaskSize-1)<<c.ci.RedPosition | (uint32(1)<<c.ci.GreenMaskSize-1)<<c.ci.GreenPosition |
+		(uint32(1)<<c.ci.BlueMaskSize-1)<<c.ci.BluePosition
+	if c.bpp == 8 {
+		c.mask = 0xff
 	}
 	fi := rng.Intn(4)
 	if w*h > 600 {
@@ -276,8 +287,14 @@ func newC18Fb(t *testing.T, w, h uint32, rng *rand.Rand) c17Screen {
 	}
 	c.snapB, c.snapA = append([]byte(nil), c.before...), append([]byte(nil), c.after...)
 	c.snapLg = append([]byte(nil), c.fb[:c.offY*c.pitch]...)
+	if pad := c.pitch - c.pw*c.bytesPP; pad > 0 {
+		for r := uint32(0); r < c.ph; r++ {
+			o := r*c.pitch + c.pw*c.bytesPP
+			c.snapPad = append(c.snapPad, c.fb[o:o+pad]...)
+		}
+	}
 	c.desc = "bpp=" + strconv.Itoa(int(c.bpp)) + " font=" + c.f.Name + " px=" + strconv.Itoa(int(c.pw)) + "x" + strconv.Itoa(int(c.ph)) +
-		" pitch=" + strconv.Itoa(int(c.pitch)) + " logo=" + strconv.Itoa(int(c.offY)) + " redpos=" + strconv.Itoa(int(c.ci.RedPosition))
+		" pitch=" + strconv.Itoa(int(c.pitch)) + " logo=" + strconv.Itoa(int(c.offY)) + " redpos=" + strconv.Itoa(int(c.ci.RedPosition)) + " bluepos=" + strconv.Itoa(int(c.ci.BluePosition))
 	return c
 }
 
@@ -289,10 +306,13 @@ func (c *c18Fb) pack(col color.RGBA, index uint8) uint32 {
 	p := uint32(col.R>>(8-c.ci.RedMaskSize))<<c.ci.RedPosition |
 		uint32(col.G>>(8-c.ci.GreenMaskSize))<<c.ci.GreenPosition |
 		uint32(col.B>>(8-c.ci.BlueMaskSize))<<c.ci.BluePosition
-	if c.bytesPP == 2 {
+	switch c.bytesPP {
+	case 2:
 		return p & 0xffff
+	case 3:
+		return p & 0xffffff
 	}
-	return p & 0xffffff
+	return p
 }
 
 func (c *c18Fb) pixel(px, py uint32) uint32 {
@@ -302,8 +322,10 @@ func (c *c18Fb) pixel(px, py uint32) uint32 {
 		return uint32(c.fb[o])
 	case 2:
 		return uint32(c.fb[o]) | uint32(c.fb[o+1])<<8
-	default: // 24 and 32 bpp: three colour bytes per pixel
+	case 3:
 		return uint32(c.fb[o]) | uint32(c.fb[o+1])<<8 | uint32(c.fb[o+2])<<16
+	default: // 32 bpp: every byte of the pixel that carries colour bits
+		return (uint32(c.fb[o]) | uint32(c.fb[o+1])<<8 | uint32(c.fb[o+2])<<16 | uint32(c.fb[o+3])<<24) & c.mask
 	}
 }
 
@@ -366,7 +388,15 @@ func (c *c18Fb) c17Cells() []int {
 	return out
 }
 func (c *c18Fb) c17Outside() int {
-	return c18Diff(c.before, c.snapB) + c18Diff(c.after, c.snapA) + c18Diff(c.fb[:c.offY*c.pitch], c.snapLg)
+	n := c18Diff(c.before, c.snapB) + c18Diff(c.after, c.snapA) + c18Diff(c.fb[:c.offY*c.pitch], c.snapLg)
+	// the padding bytes between the end of each pixel row and the start of the next one
+	if pad := c.pitch - c.pw*c.bytesPP; pad > 0 {
+		for r := uint32(0); r < c.ph; r++ {
+			o := r*c.pitch + c.pw*c.bytesPP
+			n += c18Diff(c.fb[o:o+pad], c.snapPad[r*pad:(r+1)*pad])
+		}
+	}
+	return n
 }
 func (c *c18Fb) c17Describe(e map[string]interface{}) {
 	e["cons"] = "fb"
